@@ -156,18 +156,18 @@ def date_configs(tier, seed):
     other = ['', '000', '123', '2021', '0000', '99999', '20211', '1a', 'ab']
     values = one + two + other
     cands = set()
-    pick = fmts if tier != 'quick' else fmts[:8] + rnd.sample(fmts[8:], 6)
+    pick = fmts
     # candidates are format-independent: three field texts and two separators; built around the valid fields of each picked format
     for f in pick:
         base = [valid_field(x) for x in f[:3]]
         for pos in range(3):
-            for v in (values if tier != 'quick' else one + two[:40:3] + two[28:34] + two[9:14] + other):
+            for v in (values if tier != 'quick' else one + two[:40:4] + two[28:34] + two[9:14] + two[99:] + other[:6]):
                 p = list(base)
                 p[pos] = v
                 for s1, s2 in ((f[3], f[3]), (f[3], 92 - f[3]), (92 - f[3], f[3])) if v == base[pos] or tier != 'quick' else ((f[3], f[3]),):
                     cands.add((D(p[0]), D(p[1]), D(p[2]), s1, s2))
     cands = [{'p1': c[0], 'p2': c[1], 'p3': c[2], 's1': c[3], 's2': c[4]} for c in sorted(cands)]
-    lists = [(f,) for f in pick]
+    lists = [(f,) for f in (pick if tier != 'quick' else pick[::2] + [pick[1], pick[47]])]
     lists.append(tuple(fmts))                                   # formats=None selects all documented formats
     for _ in range(3 if tier == 'quick' else 12):
         lists.append(tuple(rnd.sample(fmts, rnd.randint(2, 5))))
